@@ -15,7 +15,7 @@ REAL = ['onl.netdev.wire.Wire', 'onl.netdev.wire.Cable', 'onl.sim kernel']
 STUBS = ['injector, taps, endpoints, scripted delay distribution, ScriptedRandom replacing onl.netdev.wire.random']
 ASSUMPTIONS = ['the n-th packet taken from the wire consumes the next loss draw (if a loss rate is set) and, if kept, the '
                'next delay draw; a packet is lost iff draw < p', 'FLOAT workloads: relative tolerance 1e-9 on delivery times']
-PROBES = ['big_clock', 'late_out', 'same_object_reenters', 'draw_near_loss_rate', 'two_sources_same_ids', 'later_packet_shorter_delay', 'zero_delay', 'lost_between_delivered', 'held_back_by_predecessor', 'cable',
+PROBES = ['reconfigured_in_use', 'debug_output', 'big_clock', 'late_out', 'same_object_reenters', 'draw_near_loss_rate', 'two_sources_same_ids', 'later_packet_shorter_delay', 'zero_delay', 'lost_between_delivered', 'held_back_by_predecessor', 'cable',
           'loss_rate_one', 'loss_rate_zero']
 
 
@@ -58,6 +58,14 @@ def gen(rng, tier):
         case['ticks'] = 8                    # every instant and delay of the case is multiplied by 8 and made an int
     if rng.random() < 0.15 and not case.get('cable'):
         case['late_out'] = True             # the wire's `out` is attached after the first packets have entered
+    if rng.random() < 0.2:
+        case['debug'] = True                # the wire narrates what it does (stdout); nothing else may change
+    if rng.random() < 0.2 and n >= 2 and not case.get('ticks'):
+        # the link changes while in use: another delay distribution and loss rate are assigned to the wire's public
+        # attributes between two arrivals (a route flap, an outage, a repair); packets taken from then on follow them
+        case['reconf'] = {'after': rng.randrange(n), 'off': 2.0 ** -6 if mode == 'GRID' else 0.0123,
+                          'delays2': [rng.choice(pool) for _ in range(rng.randint(1, 6))],
+                          'loss2': rng.choice([None, 0, 1, 0.5, 0.3, loss])}
     if rng.random() < 0.3:
         # a second source on the same wire: its packets carry the same ids 1, 2, ... as the first one's
         case['workload_b'] = [[t, 2, 200] for t in gen_times(rng, rng.randint(1, 15), mode)]
@@ -114,7 +122,7 @@ def run(case):
         dist = Script(w, 'delay', [tk(d) for d in case.get('delays', [1])], 1)
         wires = {}
         if case.get('cable'):
-            cable = Cable(env, dist, case.get('loss'))
+            cable = Cable(env, dist, case.get('loss'), 0, bool(case.get('debug')))
             d1, d2 = End(w, 'dev1'), End(w, 'dev2')
             cable.set_endpoints(d1, d2)
             ok = (d1.out is cable.wire1 and cable.wire1.out is d2 and d2.out is cable.wire2 and cable.wire2.out is d1)
@@ -130,7 +138,18 @@ def run(case):
             start_injector(w, ViaOut(d1), shift(case.get('workload', [])))
             start_injector(w, ViaOut(d2), shift(case.get('workload2', [])))
         else:
-            wr = Wire(env, dist, case.get('loss'))
+            wr = Wire(env, dist, case.get('loss'), 0, bool(case.get('debug')))
+            rc = case.get('reconf')
+            if rc and case.get('workload'):
+                dist2 = Script(w, 'delay2', [tk(d) for d in rc.get('delays2', [1])], 1)
+                at = sorted(x[0] for x in case['workload'])[min(rc.get('after', 0), len(case['workload']) - 1)] + rc.get('off', 0.0123)
+
+                def reconfigure():
+                    yield env.timeout(at)
+                    wr.delay_dist = dist2
+                    wr.loss_rate = rc.get('loss2')
+                    w.rec('RECONF', 'w1')
+                env.process(reconfigure())
             w.pnames[wr.action] = 'w1'
             outtap = OutTap(w, 'w1', wr, Recorder(w, 'sink'))
             delays_ = case.get('delays', [1]) or [1]
@@ -167,6 +186,8 @@ def run(case):
         stats['big_clock'] = 1
     if case.get('late_out'):
         stats['late_out'] = 1
+    if case.get('debug'):
+        stats['debug_output'] = 1
     if case.get('workload_b') and not case.get('cable'):
         stats['two_sources_same_ids'] = 1
     for r in w.log:
@@ -184,7 +205,9 @@ def run(case):
 def check_wire(w, case, nm):
     viol, stats = [], {}
     mode = case.get('mode', 'GRID')
-    p = case.get('loss')
+    p1 = case.get('loss')
+    p2 = (case.get('reconf') or {}).get('loss2')
+    reconf_g = None
     arr, outs, draws = [], {}, []
     outorder = []
     for r in w.log:
@@ -194,7 +217,10 @@ def check_wire(w, case, nm):
             outs.setdefault(r[4], []).append((r[1], r[2], r[5]))
             outorder.append(r[4])
         elif r[0] == 'DRAW' and r[5] == nm:
-            draws.append((r[3], r[4]))
+            draws.append((r[3], r[4], r[1]))
+        elif r[0] == 'RECONF' and r[3] == nm:
+            reconf_g = r[1]
+            stats['reconfigured_in_use'] = 1
     known = {}
     for a in arr:
         known[a[2]] = known.get(a[2], 0) + 1
@@ -213,6 +239,12 @@ def check_wire(w, case, nm):
     taken = {}
     for g, a, pkt, fields in arr:
         lost = False
+        # the settings in force when the wire takes the packet (its first draw for it) apply
+        second = reconf_g is not None and di < len(draws) and draws[di][2] > reconf_g
+        if reconf_g is not None and di >= len(draws):
+            second = True
+        p = p2 if second else p1
+        dname = 'delay2' if second else 'delay'
         if p:
             if p == 1:
                 stats['loss_rate_one'] = 1
@@ -230,8 +262,10 @@ def check_wire(w, case, nm):
             nontrivial = True
             last_lost = True
             continue
-        if di >= len(draws) or draws[di][0] != 'delay':
-            viol.append(('C10.2', 'no delay was drawn for packet %s on %s' % (pkt, nm)))
+        if di >= len(draws) or draws[di][0] != dname:
+            viol.append(('C10.2', 'no delay was drawn for packet %s on %s%s' %
+                         (pkt, nm, '' if di >= len(draws) or reconf_g is None else
+                          ' from the distribution in force (%s), it drew from %s' % (dname, draws[di][0]))))
             break
         d = draws[di][1]
         di += 1
@@ -262,7 +296,7 @@ def check_wire(w, case, nm):
         prev = t
     for pkt, lst in outs.items():
         if len(lst) > taken.get(pkt, 0) and pkt in known and not viol:
-            viol.append(('C10.3', 'packet %s was delivered by %s although its loss draw was below the loss rate %r' % (pkt, nm, p)))
+            viol.append(('C10.3', 'packet %s was delivered by %s although its loss draw was below the loss rate %r' % (pkt, nm, p1 if reconf_g is None else (p1, p2))))
     if di < len(draws) and not viol:
         viol.append(('C10.2', '%s made %d more random draws than its packets account for' % (nm, len(draws) - di)))
     if [x[0] for x in expected_order] != outorder and not viol:
